@@ -344,7 +344,16 @@ def gen_edge_case(rng):
     W, H = rng.choice([(40, 120), (120, 40), (30, 150), (150, 30), (60, 90), (90, 60), (64, 64)])
     sw = rng.choice([6, 10, 16, 24])
     dx, dy = 0, 0
-    kind = rng.below(5)
+    kind = rng.below(9)
+    if kind == 8:
+        # sharp miter tip: drawn while the outline is partly on the canvas, must stay when the shift moves the outline out
+        doc, W, H, rot = gen_miter_doc(rng)
+        k = 6 + rng.below(8)
+        dx, dy = {0: (k, 1), 90: (-1, k), 180: (-k, 2), 270: (1, -k)}[rot]    # moves the apex inwards for the base rendering
+        # base = shifted inwards (outline on the canvas), shifted = original position (outline outside, tip inside)
+        return doc, "native:1:%s:%s" % (dx, dy), -dx, -dy
+    if kind >= 5:
+        return gen_crisp_case(rng, W, H, kind)
     edge = rng.choice(['left', 'top', 'right', 'bottom'])
     col = rng.choice(COLORS)
     if kind in (0, 1, 2):
@@ -395,6 +404,69 @@ def gen_edge_case(rng):
     return doc, "native:1:%s:%s" % (rng.choice([0.0, 0.37, 0.61]), rng.choice([0.0, 0.13, 0.29])), dx, dy
 
 
+def gen_crisp_case(rng, W, H, kind):
+    """rendering modes that switch anti-aliasing / smoothing off (seeded changes C13-6, C13-7): any snapping to the device
+    grid must commute with whole-pixel translations.  Integer base translation, content well inside the canvas, scales 1 and 2,
+    odd and even shifts."""
+    scale = rng.choice([1, 2, 2, 3])
+    dx = rng.below(25) - 12
+    dy = rng.below(25) - 12
+    if dx == dy:
+        dy += 1
+    cx, cy = W // 2, H // 2
+    if kind in (5, 6):
+        sr = rng.choice(['crispEdges', 'optimizeSpeed', 'crispEdges', 'geometricPrecision'])
+        half = rng.choice([0, 0, 0.5])          # centre line on a whole / half device coordinate
+        swd = rng.choice([1, 1, 2, 3])
+        parts = []
+        for _ in range(1 + rng.below(3)):
+            c = rng.choice(COLORS)
+            r = rng.below(4)
+            if r == 0:
+                y = cy + rng.below(11) - 5 + half
+                parts.append('<line x1="%s" y1="%s" x2="%s" y2="%s" stroke="%s" stroke-width="%s"/>' % (cx - 10, y, cx + 10, y, c, swd))
+            elif r == 1:
+                x = cx + rng.below(11) - 5 + half
+                parts.append('<path d="M %s %s L %s %s" fill="none" stroke="%s" stroke-width="%s"/>' % (x, cy - 9, x, cy + 9, c, swd))
+            elif r == 2:
+                parts.append('<path d="M %s %s H %s M %s %s V %s" fill="none" stroke="%s" stroke-width="%s"/>'
+                             % (cx - 8, cy + half, cx + 8, cx + half, cy - 8, cy + 8, c, swd))
+            else:
+                parts.append('<rect x="%s" y="%s" width="%s" height="%s" fill="none" stroke="%s" stroke-width="%s"/>'
+                             % (cx - 9 + half, cy - 7 + half, 12 + rng.below(6), 9 + rng.below(6), c, swd))
+        body = '<g shape-rendering="%s">%s</g>' % (sr, ''.join(parts))
+    else:
+        ir = rng.choice(['optimizeSpeed', 'optimizeQuality', 'optimizeSpeed'])
+        st = rng.choice(['', '', ' style="image-rendering:pixelated"', ' style="image-rendering:crisp-edges"'])
+        factor = rng.choice([1, 1, 2, 3])       # drawn size / natural size (16 px)
+        body = ('<image x="%d" y="%d" width="%d" height="%d" image-rendering="%s"%s xlink:href="%s"/>'
+                % (cx - 8 * factor + rng.below(5), cy - 8 * factor + rng.below(5), 16 * factor, 16 * factor, ir, st, PNG16))
+        W, H = max(W, 70), max(H, 70)
+    doc = '<svg %s width="%d" height="%d">%s</svg>' % (NS, W, H, body)
+    return doc, "native:%s:0:0" % scale, dx, dy
+
+
+def gen_miter_doc(rng):
+    """a stroked outline that lies outside the canvas by more than half the stroke width while a sharp miter join (or
+    the corner of a square cap on a diagonal end) reaches back into it (seeded change C14-5); on each of the four edges"""
+    W = H = 100
+    y0 = 20 + rng.below(60)
+    if rng.below(3):
+        w = rng.choice([8, 10, 12, 16])
+        ax = -(w // 2 + 3 + rng.below(6))              # apex outside by more than w/2 + 2
+        gap = rng.choice([8, 10, 12])
+        shape = ('<polyline points="-60,%d %d,%d -60,%d" fill="none" stroke="%s" stroke-width="%d" stroke-linejoin="miter" stroke-miterlimit="%d"%s/>'
+                 % (y0 - gap, ax, y0, y0 + gap, rng.choice(COLORS), w, rng.choice([10, 20, 40]), rng.choice(['', ' stroke-opacity="0.8"'])))
+    else:
+        w = rng.choice([24, 30, 40])
+        ax = -(w // 2 + 3 + rng.below(3))
+        shape = ('<path d="M %d %d L %d %d" fill="none" stroke="%s" stroke-width="%d" stroke-linecap="square"/>'
+                 % (ax - 40, y0 - 40, ax, y0, rng.choice(COLORS), w))
+    rot = rng.choice([0, 90, 180, 270])
+    extra = rng.choice(['', '<circle cx="50" cy="50" r="6" fill="#111"/>'])
+    return ('<svg %s width="%d" height="%d"><g transform="rotate(%d 50 50)">%s</g>%s</svg>' % (NS, W, H, rot, shape, extra)), W, H, rot
+
+
 def gen_extent_doc(rng):
     """a document for the isolation oracle whose extent is defined by a filter region (nested 2-3 plain group levels
     below the root) or by the cap / join of a thick stroke on a diagonal open path"""
@@ -429,3 +501,58 @@ def gen_extent_doc(rng):
                rng.choice(['', ' stroke-miterlimit="10"', ' stroke-opacity="0.7"'])))
     t = rng.choice(['', ' transform="rotate(%d 100 100)"' % rng.below(90), ' transform="skewX(%d)"' % (rng.below(41) - 20)])
     return '<svg %s width="%d" height="%d"><g%s><g>%s</g></g></svg>' % (NS, W, H, t, path)
+
+
+# ------------------------------------------------------------------------------------------------
+# nested chains: layer_child_max (the clamp box handed to the children of a layer) vs the recorded trace
+# ------------------------------------------------------------------------------------------------
+def chain_trace_correspondence(ctx, binp, n):
+    """Documents that are a pure chain of k nested isolated groups around one shape: the i+1-th layer event is the
+    child of the i-th, so its recorded `max` must be layer_child_max (ev_max e_i) (ev_ibbox e_i) (checked in Coq)."""
+    rng = ctx.rng
+    jobs = []
+    for _ in range(n):
+        W, H = rng.choice([(100, 100), (40, 120), (64, 30), (8, 8)])
+        k = 2 + rng.below(4)
+        x = rng.uniform(-9 * W, 3 * W)
+        y = rng.uniform(-9 * H, 3 * H)
+        shape = '<rect x="%s" y="%s" width="%s" height="%s" fill="#22d"/>' % (fnum(x), fnum(y), fnum(rng.uniform(1, 14 * W)), fnum(rng.uniform(1, 14 * H)))
+        body = shape
+        for i in range(k):
+            a = rng.choice(['style="isolation:isolate"', 'opacity="0.8"', 'style="isolation:isolate" transform="translate(%s %s)"' % (fnum(rng.uniform(-W, W)), fnum(rng.uniform(-H, H)))])
+            body = '<g %s>%s</g>' % (a, body)
+        doc = '<svg %s width="%d" height="%d">%s</svg>' % (NS, W, H, body)
+        t = (1, 0, 0, 1, rng.uniform(-40, 40), rng.uniform(-40, 40)) if rng.below(2) else (1, 0, 0, 1, 0, 0)
+        jobs.append((doc, W, H, t, k))
+    outs = ctx.rvh_batch(binp, 'layer-trace', ["-\t%s\t%s\t%d\t%d" % (d, ts_str(t), W, H) for d, W, H, t, k in jobs])
+    cases = []
+    meta = []
+    for (d, W, H, t, k), o in zip(jobs, outs):
+        try:
+            ev = [e for e in json.loads(o).get('events', []) if e.get('ev') == 'layer']
+        except (TypeError, ValueError):
+            continue
+        for a, b in zip(ev, ev[1:]):
+            cases.append("(mk_irect (%d) (%d) (%d) (%d), mk_irect (%d) (%d) (%d) (%d), mk_irect (%d) (%d) (%d) (%d))"
+                         % tuple(a['max'] + a['ibbox'] + b['max']))
+            meta.append((d, W, H, t, a, b))
+    res = dict(documents=len(jobs), pairs=len(cases), translated=sum(1 for m in meta if m[4]['max'] != m[5]['max']), bad=0)
+    if not cases:
+        ctx.violation("chain-trace: nested isolated groups recorded no parent/child layer pairs", dict(op='layer-trace'), found_input=False)
+        return res
+    body = ("Local Open Scope Z_scope.\nDefinition cases : list (irect * irect * irect) := [\n%s\n].\n"
+            "Eval vm_compute in (bad_indices (fun c => let '(m, i, m') := c in irect_eqb (layer_child_max m i) m') cases).\n" % ";\n".join(cases))
+    rcode, out = ctx.coq_eval('k_chain', body, COQ_IMPORTS, timeout=300)
+    badl = ctx.parse_N_list(out) if rcode == 0 else None
+    if badl is None:
+        ctx.violation("chain-trace: layer_child_max could not be evaluated (source-derived definitions no longer fit)", dict(log=out[-1500:]), found_input=False)
+        return res
+    res['bad'] = len(badl)
+    for b in badl[:2]:
+        d, W, H, t, ea, eb = meta[b]
+        ctx.violation("chain-trace: a nested layer was clamped against max=%s but its parent (max=%s, ibbox=%s) hands down a different box according to "
+                      "the source-derived layer_child_max" % (eb['max'], ea['max'], ea['ibbox']),
+                      dict(op='layer-trace', doc=d, canvas=[W, H], root_transform=list(t), event=eb, parent_event=ea))
+    for m in meta:
+        ctx.note_case("chain/%s/%s" % (m[4]['max'], m[4]['ibbox']))
+    return res
